@@ -498,7 +498,7 @@ def oracle_c10(sc, tr):
         # request still in flight keeps the connector alive, so restarts only count from the answer on)
         lv = verifs[-1] if verifs else None
         lvd = _vdelay_of(sc, lv[2]) if lv else 0
-        last_auth = bool(lv) and lv[3] == "auth" and lvd < THIRTY_S and not any(
+        last_auth = bool(lv) and lv[3] == "auth" and lvd <= THIRTY_S and not any(      # (= 30 s: may win the race)
             c[0] > lv[0] + lvd for c in sc["controls"] if c[1] in ("ensure", "soon", "zeroconf"))
         # (a restart racing with that answer on one tick is the scheduler's choice: not judged)
         race = bool(lv) and lv[3] == "auth" and 0 < lvd < THIRTY_S and any(c[0] == lv[0] + lvd for c in sc["controls"])
@@ -631,6 +631,11 @@ def run_core(ctx, pid, oracle, gens, corr_name):
     if not ctx.get("replay"):
         step = max(1, len(scs) // 6)
         sample = [i for i in range(0, len(scs), step)][:6]
+        # ... plus two scenarios with a pair-verify request in flight (one answered late, one never)
+        for want in ("inflight/drop/29.9s", "inflight/ensure/never"):
+            extra = next((i for i, sc in enumerate(scs) if sc.get("tag") == want), None)
+            if extra is not None and extra not in sample:
+                sample.append(extra)
         n, bad = vm_crosscheck(ctx, pid, [scs[i] for i in sample], [model[i] for i in sample])
         cov.extra["vm_compute_crosscheck"] = dict(scenarios=n, disagreements=len(bad))
         for sc, got, want in bad:
